@@ -35,6 +35,12 @@ theorem inv0_pClose {v cap s s' k} (hi : Inv0 s) (h : step v cap s (.pClose k) =
 theorem inv0_rEof {v cap s s' k} (hi : Inv0 s) (h : step v cap s (.rEof k) = some s') : Inv0 s' := by
   cases v <;> inv0_case h
 
+theorem inv0_rErr {v cap s s' k} (hi : Inv0 s) (h : step v cap s (.rErr k) = some s') : Inv0 s' := by
+  cases v <;> inv0_case h
+
+theorem inv0_pReset {v cap s s' k} (hi : Inv0 s) (h : step v cap s (.pReset k) = some s') : Inv0 s' := by
+  cases v <;> inv0_case h
+
 theorem inv0_rClose {v cap s s' k} (hi : Inv0 s) (h : step v cap s (.rClose k) = some s') : Inv0 s' := by
   cases v <;> inv0_case h
 
@@ -324,6 +330,8 @@ theorem inv0_step {v cap s s' a} (hi : Inv0 s) (h : step v cap s a = some s') : 
   | obsRecv k id => exact inv0_obsRecv hi h
   | pClose k => exact inv0_pClose hi h
   | rEof k => exact inv0_rEof hi h
+  | rErr k => exact inv0_rErr hi h
+  | pReset k => exact inv0_pReset hi h
   | rClose k => exact inv0_rClose hi h
   | rSignal k => exact inv0_rSignal hi h
   | sTopDone k => exact inv0_sTopDone hi h
